@@ -6,19 +6,19 @@ CHECKS = {
  # id: (engine, category, technique, level text, level note, design ref)
  'C02': ('icmc', 'model_checking',
          'explicit-state BFS over IBTP block histories on the real executor in lock-step with a reference model',
-         'All block histories up to depth 4 (thorough 5) over 13-25 block kinds (requests/receipts with next/duplicate/future/zero/huge/unknown index on 4 ordered pairs incl. a service sending to itself, mixed packing, unrelated txs, direct calls of every public interchain-contract method by an outsider), audit off and on; after every block every receipt verdict, both-side counters, index records and delivery sets are compared with the model, and the real InterchainRouter (GetInterchainTxWrappers over the ledger of the replica) must hand each chain exactly its delivery set and the timeout / group-rollback notifications the block lists. A further BFS (depth 3, thorough 4) uses a pair whose source service is registered as unordered (destination ordered).',
+         'All block histories up to depth 4 (thorough 5) over 13-25 block kinds (requests/receipts with next/duplicate/future/zero/huge/unknown index on 4 ordered pairs incl. a service sending to itself, mixed packing, unrelated txs, direct calls of every public interchain-contract method by an outsider), audit off and on; after every block every receipt verdict, both-side counters, index records and delivery sets are compared with the model, and the real InterchainRouter (GetInterchainTxWrappers over the ledger of the replica) must hand each chain exactly its delivery set and the timeout / group-rollback notifications the block lists. Further BFSs (depth 3, thorough 4): a pair whose source service is registered as unordered (destination ordered); inter-BitXHub pairs in both directions (local->remote delivered to the union pier, remote->local signed by the remote hub validators).',
          'memkv for goleveldb; all proofs valid (C03 covers proofs); a destination service registered as unordered waives the request order by design and is not explored', '5 C02'),
  'C04': ('icmc', 'model_checking',
          'explicit-state BFS over request/receipt/timeout block histories on the real executor against the protocol FSM',
-         'All block histories up to depth 4 (thorough 6) of requests (T=0/1/2, available or blacklisting destination), receipts success/failure/rollback (also after a final state, also in the request/expiry block), empty blocks, reopen; stored status of every id and every receipt verdict compared with the FSM of the statement after each block.',
-         'memkv for goleveldb; inter-BitXHub notices not in the alphabet yet', '5 C04'),
+         'All block histories up to depth 4 (thorough 6) of requests (T=0/1/2, available or blacklisting destination), receipts success/failure/rollback (also after a final state, also in the request/expiry block), empty blocks, reopen; stored status of every id and every receipt verdict compared with the FSM of the statement after each block. Between two BitXHubs (depth 4, thorough 5; this node as source hub): requests of a local ordered / unordered service to a service on a registered remote hub, receipts success/failure/rollback signed by two of its four validators, begin-failure and begin-rollback notices (next index, after a final state, unknown id): BEGIN goes to SUCCESS/FAILURE by receipt and to FAILURE/ROLLBACK by notice, finals never change, no timeout on the source hub.',
+         'memkv for goleveldb; the destination-hub role is explored by C02 (pair remote->local)', '5 C04'),
  'C06': ('icmc', 'model_checking',
          'explicit-state BFS over block histories with timeouts on the real executor against an expiry model',
          'All block histories up to depth 5 (thorough 7) of requests with T in {0,1,2,(3,huge,-1)}, receipts before/in/after the expiry block, shared expiry heights, begin-failed requests, reopen between H and H+T; per block the timeout notifications and all statuses are compared with the model; plus one-to-many groups (2 and 3 children, a later child refused at begin, receipts) with T=2/3: a group is listed as timed out exactly in block H+T of its first accepted child if it neither completed nor failed before; two groups from two source services with identical destination->index maps on one world stay independent.',
          'memkv for goleveldb; the block carrying a contradicting late receipt of a group is not judged (implementation-defined, see C05)', '5 C06'),
  'C09': ('chainmc', 'model_checking',
          'explicit-state BFS over block/rollback/re-execute/reopen histories on the real executor+ledger with full index re-derivation',
-         'All histories up to depth 4 (thorough 6) of block kinds (empty, transfers, interchain, mixed with failing tx, duplicate-looking txs), rollback to head..head-3, re-delivery of the head block, a different block for an existing height, reopen; after every state all heights 1..head, hash links, Merkle roots over stored txs/receipts, every lookup index and the chain meta are re-derived; nothing of removed blocks may resolve.',
+         'All histories up to depth 4 (thorough 6) of block kinds (empty, transfers, interchain, mixed with failing tx, duplicate-looking txs), rollback to head..head-3, re-delivery of the head block, a different block for an existing height, reopen; after every state all heights 1..head, hash links, Merkle roots over stored txs/receipts, every lookup index and the chain meta are re-derived; the interchain meta of every block lists exactly the positions of its own accepted IBTP transactions; nothing of removed blocks may resolve.',
          'memkv for goleveldb, real blockfile on tmpfs; identical transaction objects in two blocks are outside consensus guarantees and not explored', '5 C09'),
  'C14': ('chainmc', 'model_checking',
          'explicit-state BFS over transfer/fee block histories on the real executor against an arithmetic reference model',
@@ -26,11 +26,11 @@ CHECKS = {
          'memkv for goleveldb; gas price 50000 and 4 admins (grant part: gas price 0)', '5 C14'),
  'C10': ('enum', 'model_checking',
          'bounded-exhaustive enumeration of write sets x permutations x read patterns x residency on the real StateLedger',
-         'Every set of <=3 (thorough <=4) writes over 8 targets is executed in every order, read pattern and residency (cache, reopened, purged) on the real SimpleLedger: equal write sets must give equal roots, change sets differing in one item and equal changes on different previous roots must give different roots; tx root and receipt root (real executor functions): all 205 ordered selections of 1..4 of 5 distinct transactions pairwise distinct, 13 single-field transaction variants and 10 variants of every receipt field covered by the receipt hash at every position of every 0..2-element context, all orders of 3 receipts.',
+         'Iteration order (rewritten binary): 5 blocks over a committed prefix, the default order and every single deviation at every map / sync.Map iteration of the ledger up to the end of Commit: identical store content after commit and the written values read back after a reopen. Every set of <=3 (thorough <=4) writes over 8 targets is executed in every order, read pattern and residency (cache, reopened, purged) on the real SimpleLedger: equal write sets must give equal roots, change sets differing in one item and equal changes on different previous roots must give different roots; tx root and receipt root (real executor functions): all 205 ordered selections of 1..4 of 5 distinct transactions pairwise distinct, 13 single-field transaction variants and 10 variants of every receipt field covered by the receipt hash at every position of every 0..2-element context, all orders of 3 receipts.',
          'memkv stands in for goleveldb (same observable semantics); universe of 2 accounts, 3 keys, 2-3 values; lists carrying one transaction twice are not explored', '5 C10'),
  'C11': ('crashmc', 'fault_enumeration',
          'exhaustive enumeration of crash states (products of per-writer prefixes of the recorded durable writes of a block commit), each reopened through the real ledger.New and compared with a never-crashed replica',
-         'For every block commit of four scenarios (heights 13-16 with journal pruning on a chain reopened after its prelude, heights 13-14 on a node never restarted since genesis, heights 2-4, genesis) all products of prefixes of state-store batches x chain-index batch x ordered blockfile appends are materialised and reopened; opens, height, readable hash-linked blocks, state version/root/content equal to the never-crashed replica, and re-execution of the remaining blocks are checked. Opens that would spin forever or continuations that would kill the process are confirmed in CPU-limited subprocesses. Five structural defects are recorded as known findings (22 class signatures).',
+         'For every block commit of four scenarios (heights 13-16 with journal pruning on a chain reopened after its prelude, heights 14-16 on a node never restarted since genesis (with a deployed contract whose balance alone is changed by one block), heights 2-4, genesis) all products of prefixes of state-store batches x chain-index batch x ordered blockfile appends are materialised and reopened; opens, height, readable hash-linked blocks, state version/root/content equal to the never-crashed replica, and re-execution of the remaining blocks are checked. Opens that would spin forever or continuations that would kill the process are confirmed in CPU-limited subprocesses. Five structural defects are recorded as known findings (22 class signatures).',
          'process death only (each durable write all-or-nothing, per-writer program order); memkv for goleveldb, real blockfile', '5 C11'),
  'C12': ('ledgermc', 'model_checking',
          'explicit-state BFS over block histories with rollback(t) on the real StateLedger against recorded reference states',
@@ -38,13 +38,13 @@ CHECKS = {
          'memkv stands in for goleveldb; small key/value universe incl. non-UTF-8 keys and empty values', '5 C12'),
  'C13': ('ledgermc', 'model_checking',
          'explicit-state BFS over StateLedger operation sequences against a map reference model',
-         'All sequences of <=5 (thorough <=7) operations from set/delete/add/get/balance/nonce/code/snapshot/revert/finalise/commit/reopen/cache purge over 2 accounts x 3 prefix-related keys x 4 values; states deduplicated on the full in-memory + stored state; every getter and three prefix queries compared with the reference in every state.',
+         'All sequences of <=5 (thorough <=7) operations from set/delete/add/get/balance/nonce/code/snapshot/revert/finalise/commit/reopen/cache purge over 2 accounts x 3 prefix-related keys x 4 values; states deduplicated on the full in-memory + stored state; every getter and three prefix queries compared with the reference in every state; a second BFS (one step shallower) starts from a state with committed keys and code.',
          'memkv stands in for goleveldb; LRU eviction modelled as whole-cache purge', '5 C13'),
 }
 CHECKS.update({
  'C18': ('poolmc', 'model_checking',
          'explicit-state BFS over mempool operation sequences on the real pool in lock-step with a reference model (virtual clock)',
-         'All sequences up to depth 5 (thorough 6) of 20-27 operations (receive as leader/follower, local/remote, slices with out-of-order, duplicate-nonce and conflicting transactions; generate; commit in order / reversed / partial; commit of a block built elsewhere; clock ticks; age eviction; restart; sequence reset) with batch sizes 1,2,3, and timed mode (blocks cut by GenerateBlock only; 9-transaction account; commits naming all / the first / only the last hash of a batch; depth 9); states deduplicated on a canonical dump of every pool index; every returned batch is checked (consecutive nonces from committed/last batched, not twice, the held object, not below the ledger nonce, size, sequence).',
+         'All sequences up to depth 5 (thorough 6) of 20-27 operations (receive as leader/follower, local/remote, slices with out-of-order, duplicate-nonce and conflicting transactions; generate; commit in order / reversed / partial; commit of a block built elsewhere (from unseen transactions, or from the ready transaction this pool holds but has not batched); clock ticks; age eviction; restart; sequence reset) with batch sizes 1,2,3, and timed mode (blocks cut by GenerateBlock only; 9-transaction account; commits naming all / the first / only the last hash of a batch; depth 9); states deduplicated on a canonical dump of every pool index; every returned batch is checked (consecutive nonces from committed/last batched, not twice, the held object, not below the ledger nonce, size, sequence).',
          'two accounts, nonces 0..3; clock seam by rewriting time.Now() in copies of the pool sources at build time; goroutine interleavings inside commit/evict are not enumerated (fork-join on disjoint indexes)', '5 C18'),
  'C19': ('poolmc', 'model_checking',
          'explicit-state BFS over mempool operation sequences with a state oracle and an exhaustive drain continuation from every state',
@@ -86,7 +86,7 @@ CHECKS.update({
 CHECKS.update({
  'C20': ('ordermc', 'model_checking',
          'deviation-bounded exhaustive DFS over the scheduler choices of a 3-replica cluster of real etcdraft nodes and of the solo node stepped one event at a time (select-case bodies extracted from the current source, raft state machine stepped synchronously, harness network/executor, real WAL); plus exhaustive enumeration of sync ranges, choice-point DFS over the real state syncer, and explicit-state BFS over the raft node\'s apply path for every short committed log',
-         'D: three real etcdraft.Node replicas: default schedule + every single deviation (quick; about 18000 executions) and every pair of fault-class deviations until the deadline (thorough), a deviation being another enabled internal event (ready / propose / deliver any pending message / execute / report / restart), dropping or duplicating a message, crashing a replica with or without its in-flight messages, a spontaneous election, a tick; 5 configurations (batch size 1, pipelined submissions, batch size 2 with batch timeout, snapshot_count 2 with compaction, MsgSnap, recoverFromSnapshot and block fetches, and the same with a follower whose executor is stalled two blocks behind its orderer while it is partitioned away and then caught up by a snapshot); oracles: delivered height = last executed + 1 on every replica across restarts, identical block content on all replicas, a transaction in at most one block, no replica death, at quiescence every committed batch delivered. E: the solo orderer likewise. A: calcRangeHeight for all begin,end in 0..28 (thorough 0..40) x fetch 1..8. B: real SyncCFTBlocks for every pattern of <=2 fetch failures x every peer pick. C: the node\'s apply path under all interleavings of hand-over chunks, re-delivery, executor reports and crash+restart for every committed log of length 4 (thorough 5).',
+         'D: three real etcdraft.Node replicas: default schedule + every single deviation (quick; about 18000 executions) and every pair of fault-class deviations until the deadline (thorough), a deviation being another enabled internal event (ready / propose / deliver any pending message / execute / report / restart), dropping or duplicating a message, crashing a replica with or without its in-flight messages, a spontaneous election, a tick; 5 configurations (batch size 1, pipelined submissions, batch size 2 with batch timeout, snapshot_count 2 with compaction, MsgSnap, recoverFromSnapshot and block fetches, and the same with a follower whose executor is stalled two blocks behind its orderer while it is partitioned away and then caught up by a snapshot); oracles: delivered height = last executed + 1 on every replica across restarts, identical block content on all replicas, a transaction in at most one block, no replica death, at quiescence every committed batch delivered, a restarted replica resumes with the raft hard state (term, vote, commit) it had made durable. E: the solo orderer likewise. A: calcRangeHeight for all begin,end in 0..28 (thorough 0..40) x fetch 1..8. B: real SyncCFTBlocks for every pattern of <=2 fetch failures x every peer pick. C: the node\'s apply path under all interleavings of hand-over chunks, re-delivery, executor reports and crash+restart for every committed log of length 4 (thorough 5).',
          'elections are explicit campaign events with pre-vote/check-quorum off (tick-driven timeouts are randomized inside the library); configuration changes not explored; the etcd raft library is trusted (its bootstrap code is repeated in a synchronous wrapper added through the overlay); a peer is assumed able to serve every block it has been handed', '5 C20'),
 })
 CHECKS.update({
@@ -98,8 +98,8 @@ CHECKS.update({
 CHECKS.update({
  'C01': ('detmc', 'model_checking',
          'exhaustive deviation-bounded exploration of the real executor: for the last block of every macro-block history, one environment deviation per execution (each dynamic map iteration in each alternative order, each fork-join section in each serial order, restart at every position, cache purge, proof mode, clock shift) with a differential oracle on all block results',
-         'All histories up to depth 3 (thorough 4) over 18 macro blocks (transfers incl. failing, IBTP requests/receipts on three pairs, timeouts expiring together and apart, one-to-many begin/receipts, wasm- and fabric-rule proofs valid/invalid/malformed, governance proposals and votes incl. appchain freeze/logout cascades, strategy update, service update with and without proposal, dapp registration, XVM deploy, invalid signature, unknown method) plus 5 histories right after genesis. The last block of each history is executed on: a replica restarted just before it (reference), the never-restarted replica, replicas restarted before each earlier block, with the account cache purged, with parallel proof verification, with the wall clock shifted, and - one deviation per execution - with every dynamic range-over-map of the executor, contracts, ledger, proof and VM packages in every other order (all permutations up to 4 keys; reversal, rotations, adjacent transpositions above) and every fork-join section in every serial order. Block hash, all roots, parent hash, bloom, every receipt, interchain/timeout/multi-tx metadata and the persisted world state must be identical (a difference must reproduce in a second execution of the case). Thorough: additionally a free-running pass of the depth-2 histories under the race detector (reports recorded, not deciding). The map/fork-join/clock seams are rewritten into copies of the current sources by tools/maprewrite (go/types based) and delivered through the build overlay.',
-         'deviation bound 1 (one map iteration or fork-join section deviates per execution); fork-join bodies run atomically in every serial order (no preemption inside a body); sync.Map.Range and library-internal iteration (json, protobuf: sorted) are not seams; restart = reopen on the persisted data (crash points inside a block are C11); the genesis/BNS restart defect is a known finding', '5 C01'),
+         'All histories up to depth 3 (thorough 4) over 18 macro blocks (transfers incl. failing, IBTP requests/receipts on three pairs, timeouts expiring together and apart, one-to-many begin/receipts, wasm- and fabric-rule proofs valid/invalid/malformed, governance proposals and votes incl. appchain freeze/logout cascades, strategy update, service update with and without proposal, dapp registration, XVM deploy, invalid signature, unknown method) plus 5 histories right after genesis. The last block of each history is executed on: a replica restarted just before it (reference), the never-restarted replica, replicas restarted before each earlier block, with the account cache purged, with parallel proof verification, with the wall clock shifted, and - one deviation per execution - with every dynamic range-over-map and sync.Map.Range of the executor, contracts, ledger, proof and VM packages in every other order (all permutations up to 4 keys; reversal, rotations, adjacent transpositions above) and every fork-join section in every serial order. Block hash, all roots, parent hash, bloom, every receipt, interchain/timeout/multi-tx metadata and the persisted world state must be identical (a difference must reproduce in a second execution of the case). Thorough: additionally a free-running pass of the depth-2 histories under the race detector (reports recorded, not deciding). The map/fork-join/clock seams are rewritten into copies of the current sources by tools/maprewrite (go/types based) and delivered through the build overlay.',
+         'deviation bound 1 (one map iteration or fork-join section deviates per execution); fork-join bodies run atomically in every serial order (no preemption inside a body); library-internal iteration (json, protobuf: sorted) is not a seam; restart = reopen on the persisted data (crash points inside a block are C11); the genesis/BNS restart defect is a known finding', '5 C01'),
 })
 REASON_WIP = 'check not built yet (work in progress; see DESIGN.md section 10)'
 def main():
